@@ -18,6 +18,8 @@ Static types added to those of py2lean.py:
     ('enum', C) -> Int   member of Enum class C, represented by its (unique, int) value
     ('obj', C)  -> C     object of a translated class (generated structure)
     ('opt', T)  -> Option T
+    ('union', A, B) -> Sum A B   a parameter that is called with values of two static types (`Union[A, B]`); the only thing
+                         translated on it is the conditional expression `X if isinstance(p, T) else Y`, a `match` that narrows p
 A parameter annotated `Union[...]` is MONOMORPHISED: the unit's entry gives the static type the function is translated for
 (`params={...}`), `isinstance(p, T)` is then a constant and only the branch that is taken is translated.
 """
@@ -61,6 +63,10 @@ def lean_type(t) -> str:
         if t[0] == "opt":
             inner = lean_type(t[1])
             return f"Option {inner}" if " " not in inner else f"Option ({inner})"
+        if t[0] == "union":
+            a, b = lean_type(t[1]), lean_type(t[2])
+            par = lambda x: x if " " not in x else f"({x})"  # noqa: E731
+            return f"Sum {par(a)} {par(b)}"
     return _base_lean_type(t)
 
 
@@ -192,6 +198,14 @@ class BFn(P.Fn):
         """defaults: literals; `None`; an Enum member; `bitarray()` / `bitarray("0101")` (the default object is shared by all
         calls — its VALUE is assumed to be the one written, i.e. nobody mutated it: C19's subject)"""
         g = self.fn.__globals__
+        if isinstance(t, tuple) and t[0] == "union":
+            for side, tt in ((".inl", t[1]), (".inr", t[2])):
+                try:
+                    inner = self.const_default(d, tt)
+                except Untranslatable:
+                    continue
+                return Ex(f"({side} {inner.text})", t)
+            self.bad(d, "default value of a Union parameter")
         if isinstance(t, tuple) and t[0] == "opt":
             if isinstance(d, ast.Constant) and d.value is None:
                 return Ex("none", t)
@@ -241,42 +255,46 @@ class BTranslator(P.Translator):
             self.f.bad(node, f"attribute `{attr}` of {cls} is not assigned in its __init__")
         return tab[attr]
 
+    def isinstance_of(self, t, c, n):
+        """isinstance(<value of static type t>, <class named by the Name node c>) as a constant"""
+        if isinstance(t, tuple) and t[0] in ("opt", "union"):
+            self.f.bad(n, f"isinstance of a {t[0]} value")
+        if c.id in ("int", "bool", "bytes") and self.glob(c.id) is None:
+            if c.id == "int":
+                return t in ("int", "bool")  # bool is a subclass of int; Enum classes of the subset are not IntEnum
+            return t == c.id
+        if c.id == "bitarray" and self.is_real("bitarray", "bitarray", "bitarray"):
+            return t in BA
+        obj = self.glob(c.id)
+        ct = self.f.class_type(obj)
+        if ct is not None:
+            if isinstance(t, tuple) and t[0] in ("enum", "obj"):
+                if t == ct:
+                    return True
+                # another class of the subset: no subclassing among them is assumed, so check it
+                other = self.u.pyclass(t)
+                if other is not None and not issubclass(other, obj):
+                    return False
+                self.f.bad(n, "isinstance between related classes")
+            return False  # int / bool / bytes / bitarray value against a class of the subset (no IntEnum: checked)
+        self.f.bad(n, f"isinstance with `{c.id}`")
+
+    def is_isinstance(self, n):
+        return isinstance(n, ast.Call) and isinstance(n.func, ast.Name) and n.func.id == "isinstance" and len(n.args) == 2 \
+            and not n.keywords and self.glob("isinstance") is None
+
     def static_test(self, n, env):
         """True / False if the test is decided by the static types (isinstance on a typed name), else None"""
-        if isinstance(n, ast.Call) and isinstance(n.func, ast.Name) and n.func.id == "isinstance" and len(n.args) == 2 \
-                and not n.keywords and self.glob("isinstance") is None:
+        if self.is_isinstance(n):
             x = self.expr(n.args[0], env)
             if self.has_effects(x):
                 self.f.bad(n, "isinstance of an expression with effects")
             c = n.args[1]
             if not isinstance(c, ast.Name):
                 self.f.bad(n, "isinstance with a class that is not a plain name")
-            t = x.typ
-            if c.id in ("int", "bool", "bytes") and self.glob(c.id) is None:
-                if isinstance(t, tuple) and t[0] == "opt":
-                    self.f.bad(n, "isinstance of an Optional value")
-                if c.id == "int":
-                    return t in ("int", "bool")  # bool is a subclass of int; Enum classes of the subset are not IntEnum
-                return t == c.id
-            if c.id == "bitarray" and self.is_real("bitarray", "bitarray", "bitarray"):
-                if isinstance(t, tuple) and t[0] == "opt":
-                    self.f.bad(n, "isinstance of an Optional value")
-                return t in BA
-            obj = self.glob(c.id)
-            ct = self.f.class_type(obj)
-            if ct is not None:
-                if isinstance(t, tuple) and t[0] == "opt":
-                    self.f.bad(n, "isinstance of an Optional value")
-                if isinstance(t, tuple) and t[0] in ("enum", "obj"):
-                    if t == ct:
-                        return True
-                    # another class of the subset: no subclassing among them is assumed, so check it
-                    other = self.u.pyclass(t)
-                    if other is not None and not issubclass(other, obj):
-                        return False
-                    self.f.bad(n, "isinstance between related classes")
-                return False  # int / bool / bytes / bitarray value against a class of the subset (no IntEnum: checked)
-            self.f.bad(n, f"isinstance with `{c.id}`")
+            if isinstance(x.typ, tuple) and x.typ[0] == "union":
+                return None
+            return self.isinstance_of(x.typ, c, n)
         if isinstance(n, ast.UnaryOp) and isinstance(n.op, ast.Not):
             v = self.static_test(n.operand, env)
             return None if v is None else (not v)
@@ -299,6 +317,11 @@ class BTranslator(P.Translator):
             return Ex(f"(some {inner.val()})", want)
         if want == "bax" and x.typ in BA:
             return Ex(x.text, "bax", x.monadic)
+        if isinstance(want, tuple) and want[0] == "union":
+            for side, tt in (("Sum.inl", want[1]), ("Sum.inr", want[2])):
+                if x.typ == tt or (tt == "int" and x.typ == "bool"):
+                    inner = self.coerce(x, tt, n, what)
+                    return Ex(f"({side} {inner.val()})", want)
         self.f.bad(n, f"{what}: {x.typ} for {want}")
 
     # ================================================================ expressions
@@ -331,6 +354,26 @@ class BTranslator(P.Translator):
         st = self.static_test(n.test, env)
         if st is not None:
             return self.expr(n.body if st else n.orelse, env)
+        t = n.test
+        if self.is_isinstance(t) and isinstance(t.args[0], ast.Name) and isinstance(t.args[1], ast.Name):
+            nm = t.args[0].id
+            ut = env.get(nm)
+            if isinstance(ut, tuple) and ut[0] == "union":
+                # `X if isinstance(p, T) else Y` on a Union parameter: a match that narrows p in both arms
+                arms = []
+                typ = None
+                for side, tt in ((".inl", ut[1]), (".inr", ut[2])):
+                    env2 = dict(env)
+                    env2[nm] = tt
+                    e = self.expr(n.body if self.isinstance_of(tt, t.args[1], n) else n.orelse, env2)
+                    if typ is None:
+                        typ = e.typ
+                    elif e.typ != typ:
+                        self.f.bad(n, f"conditional expression of {typ} / {e.typ}")
+                    arms.append(f"| {side} {mangle(nm)} => {self.branch(e)}")
+                lt = lean_type(typ)
+                lt = lt if " " not in lt else f"({lt})"
+                return Ex(f"(match {mangle(nm)} with {' '.join(arms)} : PyM {lt})", typ, True)
         return super().e_IfExp(n, env)
 
     def e_BinOp(self, n, env):
@@ -382,6 +425,10 @@ class BTranslator(P.Translator):
             sym = "==" if isinstance(n.ops[0], ast.Eq) else "!="
             if a.typ in BA and b.typ in BA:
                 return Ex(f"({a.val()} {sym} {b.val()})", "bool")  # bitarray equality ignores the endianness
+            if isinstance(a.typ, tuple) and a.typ[0] == "opt" and isinstance(a.typ[1], tuple) and a.typ[1][0] == "enum" \
+                    and b.typ == a.typ[1]:
+                # None == Member is False
+                return Ex(f"({a.val()} {sym} some {b.val()})", "bool")
             if isinstance(a.typ, tuple) and a.typ[0] == "enum":
                 if a.typ != b.typ:
                     self.f.bad(n, f"comparison of {a.typ} with {b.typ}")
@@ -508,6 +555,9 @@ class BTranslator(P.Translator):
             ext = self.u.external(self.f, name, obj)
             if ext is not None:
                 return self.call_external(n, ext, env)
+            for g in self.u.fns:
+                if obj is not None and g.fn is obj and g.clsname is None:
+                    return self.call_translated(n, g, env)
         if isinstance(fn, ast.Attribute):
             # Class.function(...)
             if isinstance(fn.value, ast.Name) and fn.value.id not in env:
